@@ -172,8 +172,8 @@ func (m *Machine) zero(t types.Type) Value {
 		if u.Info()&types.IsBoolean != 0 {
 			return m.tt.F
 		}
-		if u.Kind() == types.UntypedNil {
-			return nil
+		if u.Kind() == types.UntypedNil || u.Kind() == types.Invalid {
+			return nil // blank range key/value components are typed invalid and never read
 		}
 		w := bvWidth(u)
 		if w <= 0 {
